@@ -168,7 +168,9 @@ CHECKS["C01"] = dict(_at_common, **{
                           [_OC1, _OC0], [_OC1, _OC0, _OC1P, _OC0P, _NV],
                           extra=[("null", "t_nullw", "ATRollback_Gen_C01N.cfg"),
                                  # composite keys whose values concatenate to the same text
-                                 ("compc", "t_compc", "ATRollback_Gen_C01S.cfg")]),
+                                 ("compc", "t_compc", "ATRollback_Gen_C01S.cfg"),
+                                 # secondary unique index: an upsert reaches the row through it (one statement)
+                                 ("uq", "t_uq", "ATRollback_Gen_C18U.cfg")]),
 })
 
 CHECKS["C09"] = dict(_at_common, **{
